@@ -39,6 +39,9 @@ class OdeText:
     data_idx: list | None = None  # indices n of data[n] in emission order
     subscripts: list = field(default_factory=list)  # (function, array, index, declared_size)
     decls: dict = field(default_factory=dict)  # function -> {name: size or None}
+    scalar_init: dict = field(default_factory=dict)  # function -> {scalar name: initialiser text}
+    batch: dict = field(default_factory=dict)  # kernel -> {yistart / jistart / y_cur / udata: initialiser text}
+    lhs_offsets: dict = field(default_factory=dict)  # kernel -> set of offset names used in ydot[...] / data[...] targets
     k_init: dict = field(default_factory=dict)  # function -> {array: init text}
     raw: dict = field(default_factory=dict)
 
@@ -137,6 +140,11 @@ def _read_body(ot: OdeText, fn: str, body: str, mdict, alias):
                         ot.decls[fn][name + "#init"] = len(vals)
             else:
                 ot.decls[fn][name] = None
+                if init is not None and not init.strip().startswith("{"):
+                    ot.scalar_init.setdefault(fn, {})[name] = " ".join(init.split())
+                if init is not None and name in ("yistart", "jistart", "y_cur", "udata", "tidx", "gs"):
+                    # batch layout of the CUDA kernels: which window of the flat arrays system `cur` owns
+                    ot.batch.setdefault(fn, {})[name] = " ".join(init.split())
                 if init is not None and not ptr and not init.strip().startswith("{"):
                     ast = _expr(init, s)
                     _collect_subscripts(ast, fn, mdict, ot.subscripts, sizes)
@@ -150,6 +158,7 @@ def _read_body(ot: OdeText, fn: str, body: str, mdict, alias):
                 idx_ast = _expr(m.group(2), s)
                 # cusparse kernel: ydot[yistart + IDX_X]
                 itxt = m.group(2)
+                ot.lhs_offsets.setdefault(fn, set()).add("yistart" if "yistart" in itxt else "")
                 if "yistart" in itxt:
                     idx_ast = _expr(re.sub(r"yistart\s*\+", "", itxt), s)
                 slot = const_int(idx_ast, mdict)
@@ -184,6 +193,8 @@ def _read_body(ot: OdeText, fn: str, body: str, mdict, alias):
             if m:
                 arr = m.group(1)
                 itxt = m.group(2)
+                if arr == "data":
+                    ot.lhs_offsets.setdefault(fn, set()).add("jistart" if "jistart" in itxt else "")
                 if "jistart" in itxt:
                     itxt = re.sub(r"jistart\s*\+", "", itxt)
                 n = const_int(_expr(itxt, s), mdict)
